@@ -113,7 +113,7 @@ func TestC10_MalformedConfigs(t *testing.T) {
 // executed since, a byte-identical copy of any of them is refused.
 func TestC10_ReplayAfterLongHistory(t *testing.T) {
 	rec := recorder("C10")
-	rec.AddRule("(e) one keyper has K transactions executed (K drawn around 1..1025 incl. every power of two +-1; block-seen reports and check-ins over several blocks), then byte-identical copies of generated earlier ones (first, last, K-2^j-1.., random) are offered to CheckTx and DeliverTx after every further transaction of a short tail; oracle: non-zero code both ways, no events, state equal to the twin without the copies; non-trivial = K >= 16; distinct by (genesis, K, picks)")
+	rec.AddRule("(e) one keyper has K transactions executed (K drawn around 1..1025 incl. every power of two +-1; block-seen reports over several blocks; the first three carry the nonces 0, 2^64-1 and 2^63), then byte-identical copies of generated earlier ones (first, last, K-2^j-1.., random) are offered to CheckTx and DeliverTx after every further transaction of a short tail; oracle: non-zero code both ways, no events, state equal to the twin without the copies; non-trivial = K >= 16; distinct by (genesis, K, picks)")
 	runRapid(t, N(40, 1500), func(rt *rapid.T) {
 		fail := func(sig, f string, a ...any) { fatalf(rt, sig, f, a...) }
 		g := genGenesis(rt)
@@ -140,7 +140,16 @@ func TestC10_ReplayAfterLongHistory(t *testing.T) {
 			} else {
 				msg = shmsg.NewBlockSeen(uint64(i))
 			}
-			tx := uni.MakeTx(s, apphist.ChainID, uint64(i)*2654435761+1, msg)
+			nonce := uint64(i)*2654435761 + 1
+			switch i {
+			case 0:
+				nonce = 0 // the value an unset field has
+			case 1:
+				nonce = math.MaxUint64
+			case 2:
+				nonce = 1 << 63
+			}
+			tx := uni.MakeTx(s, apphist.ChainID, nonce, msg)
 			sent = append(sent, tx)
 			calls = append(calls, call{Kind: 'D', Tx: tx, Tag: fmt.Sprintf("t%d", i)})
 			if (i+1)%perBlock == 0 {
@@ -155,7 +164,9 @@ func TestC10_ReplayAfterLongHistory(t *testing.T) {
 		var picks []int
 		for k, np := 0, rapid.IntRange(1, 4).Draw(rt, "npicks"); k < np; k++ {
 			var i int
-			switch rapid.IntRange(0, 4).Draw(rt, "pickKind") {
+			switch rapid.IntRange(0, 5).Draw(rt, "pickKind") {
+			case 5:
+				i = rapid.IntRange(0, 2).Draw(rt, "pickEdgeNonce") // nonces 0, 2^64-1, 2^63
 			case 0:
 				i = 0
 			case 1:
@@ -170,6 +181,9 @@ func TestC10_ReplayAfterLongHistory(t *testing.T) {
 			}
 			if i < 0 {
 				i = 0
+			}
+			if i >= K {
+				i = K - 1
 			}
 			picks = append(picks, i)
 		}
